@@ -768,6 +768,8 @@ class CompressedBytesColumn(Column):
     default).
     """
 
+    _default = emptybytes
+
     def __init__(self, level=3, module="zlib"):
         """
         :param level: the compression level to use.
